@@ -7,3 +7,23 @@ pub assume_specification<T>[ core::ops::RangeInclusive::<T>::start ](r: &core::o
     ensures *s == ri_start(r);
 pub assume_specification<T>[ core::ops::RangeInclusive::<T>::end ](r: &core::ops::RangeInclusive<T>) -> (s: &T)
     ensures *s == ri_end(r);
+/// an instruction: its content plays no role for spans
+#[verifier::external_body]
+pub struct VxInstr { _p: () }
+// std contracts of the slice accessors the span lookups go through
+#[verifier::external_body]
+pub fn vx_ins_get(v: &Vec<(VxInstr, Vec<Span>)>, i: usize) -> (r: Option<&(VxInstr, Vec<Span>)>)
+    ensures r is Some == (i < v@.len()), r is Some ==> *r->Some_0 == v@[i as int]
+{ unimplemented!() }
+#[verifier::external_body]
+pub fn vx_span_get(v: &Vec<Span>, i: usize) -> (r: Option<&Span>)
+    ensures r is Some == (i < v@.len()), r is Some ==> *r->Some_0 == v@[i as int]
+{ unimplemented!() }
+#[verifier::external_body]
+pub fn vx_first(v: &Vec<Span>) -> (r: Option<&Span>)
+    ensures r is Some == (v@.len() > 0), r is Some ==> *r->Some_0 == v@[0]
+{ unimplemented!() }
+#[verifier::external_body]
+pub fn vx_last(v: &Vec<Span>) -> (r: Option<&Span>)
+    ensures r is Some == (v@.len() > 0), r is Some ==> *r->Some_0 == v@[v@.len() - 1]
+{ unimplemented!() }
